@@ -19,12 +19,14 @@ def route(case):
     if case.startswith("W "):
         return "radius"
     return "aaa_race" if case.startswith("Sr ") else "aaa"
-# Model variants: "repaired" = /repo HEAD plus ordered per-session delivery of the provider calls (the one finding that
-# is still open); "head" = /repo HEAD.  Every other finding is fixed in /repo (7e92d8e, e0693a6, d70a5ae, 9b87063,
-# d95fed1): a regression to any of them matches neither variant and is reported as a VIOLATION.
-VARIANTS = ["repaired", "head"]
-FLAGS = {"repaired": "", "head": "o"}
-SIG = {"o": "start-stop-interim-sent-from-unordered-goroutines"}
+# Model variants v<s><o><l><p> (fix_sent, fix_order, fix_l2stop, fix_prune).  "repaired" = v1111; "head" = v1010 = /repo HEAD.
+# Two findings are open: o (provider calls sent from unordered goroutines; no patch) and p (orphan prune without Stop;
+# fixes/C09_stop_on_prune.patch).  Everything else is fixed in /repo (7e92d8e, e0693a6, d70a5ae, 9b87063, d95fed1): a
+# regression to any of those matches no variant and is reported as a VIOLATION.
+VARIANTS = ["repaired", "v1011", "v1110", "head"]
+FLAGS = {"repaired": "", "v1011": "o", "v1110": "p", "head": "op"}
+SIG = {"o": "start-stop-interim-sent-from-unordered-goroutines",
+       "p": "pruneOrphanedAcctEntries-drops-accounting-without-stop"}
 RULE = ("One case = one history of the real AAA component with 1-4 sessions (two of them share an interim bucket; 6% of "
         "the histories have 5-7 sessions crowded in one bucket, with releases between ticks); "
         "IPoE, PPPoE and l2gw payloads; l2gw sessions read the l2gw stats segment - access and handoff entry - on a tick, "
@@ -539,10 +541,13 @@ def classify(case, impl, model):
         return classify_wire(case, impl, model)
     ic, idump, iv = parts(impl)[:3]
     mc, mdump, mv = parts(model)[:3]
+    if "UNEXCUSED" in model and impl == model.replace("UNEXCUSED", ""):
+        return "P", ("the accounting stream of the real code violates the property and no recorded finding or stated "
+                     "hypothesis excuses it (verdict bits brk stp mono snt ord, excuses W/P/D): %s" % parts(impl)[2])
     names = ["a second Start inside one bracket", "a Stop that answers no open accounting (or a second Stop)",
              "reported counters went below the last acknowledged report",
              "reported counters went below an earlier report of the bracket (sent, not acknowledged)",
-             "calls reached the provider outside the bracket order (Interim/Stop before Start, or after Stop)"]
+             "calls outside a bracket (Interim/Stop with no Start and no restore before, or a Start inside a bracket)"]
     bad = []
     for tok in iv.split():
         sid, _, bits = tok.partition("=")
@@ -647,7 +652,7 @@ def shrink(case):
 
 def distribution(cases, impl):
     d = {"ops": {}, "calls": {"S": 0, "I_ok": 0, "I_fail": 0, "E": 0}, "sessions": {}, "history_len": {},
-         "verdict_bits_zero": 0, "histories_with_reading_reset": 0, "histories_with_restart": 0,
+         "histories_with_reading_reset": 0, "histories_with_restart": 0,
          "snapshots": {"unavailable": 0, "empty": 0, "items": 0}}
     for c, o in zip(cases, impl):
         t = c.split()
@@ -713,5 +718,14 @@ def distribution(cases, impl):
                 d["calls"]["E"] += 1
             elif tok[0] == "I":
                 d["calls"]["I_ok" if tok.endswith(":k") else "I_fail"] += 1
-        d["verdict_bits_zero"] += sum(x.partition("=")[2][:5].count("0") for x in verd.split())
+        for x in verd.split():
+            bits, exc = x.partition("=")[2][:5], x.partition("=")[2][5:]
+            d["verdict_vectors"] = d.get("verdict_vectors", 0) + 1
+            for nm, bt in zip(("brk", "stp", "mono", "snt", "ord"), bits):
+                if bt == "0":
+                    # excuse: P = dropped by an orphan prune (known finding), D = a Start was held back (known finding),
+                    # otherwise W = a uint64 cumulative wrapped (the model marks anything else UNEXCUSED = VIOLATION)
+                    e = "P" if "P" in exc else "D" if "D" in exc else "W"
+                    z = d.setdefault("verdict_bits_zero_by_bit_and_excuse", {})
+                    z[nm + ":" + e] = z.get(nm + ":" + e, 0) + 1
     return d
